@@ -7,6 +7,7 @@ __maintainer__ = "Patrick Renner, Alexander Sahm"
 __email__ = "opensource@pomfort.com"
 """
 
+from datetime import datetime
 import os
 import textwrap
 from timeit import default_timer as timer
@@ -156,7 +157,12 @@ def parse(file_path):
                         hash_date = None
                         hash_date_string = element.attrib.get("hashdate")
                         if hash_date_string is not None:
-                            hash_date = dateutil.parser.parse(hash_date_string)
+                            try:
+                                hash_date = dateutil.parser.parse(hash_date_string)
+                            except ValueError:
+                                # dates are written with datetime.isoformat(), which emits a utc offset with
+                                # seconds (e.g. +00:53:28) for zones using local mean time; dateutil rejects those
+                                hash_date = datetime.fromisoformat(hash_date_string)
                         if current_object.is_directory:
                             if is_directory_structure == False:
                                 entry = MHLHashEntry(
